@@ -40,13 +40,14 @@ def ccOf (e : Event) (cc : Option Int) : Option Int :=
   | .marshal m => if m.path == rootPath ++ [⟨"commandCode", none⟩] then m.val else cc
   | .warning _ => cc
 
-/-- flush the trace: stop silently at a root `...` event emitted with the input exhausted -/
-def pumpEvents (len : Nat) : List (Nat × Event) → List (Nat × Event) → Option Int →
+/-- flush the trace; a command/response stream stops silently at a root `...` event emitted with the
+input exhausted -/
+def pumpEvents (isStream : Bool) (len : Nat) : List (Nat × Event) → List (Nat × Event) → Option Int →
     (List (Nat × Event) × Option Int × Bool)
   | [], acc, cc => (acc, cc, false)
   | (k, e) :: rest, acc, cc =>
-    if k == len && isRootEllipsis e then (acc, cc, true)
-    else pumpEvents len rest (acc ++ [(min (k + 1) len, e)]) (ccOf e cc)
+    if isStream && k == len && isRootEllipsis e then (acc, cc, true)
+    else pumpEvents isStream len rest (acc ++ [(min (k + 1) len, e)]) (ccOf e cc)
 
 /-- was the last thing the processor did before stopping at byte count `k` the consumption of a byte
 (or nothing at all)?  Then the pump sees the stop on `processor.send(byte)`; otherwise on a flush. -/
@@ -55,12 +56,12 @@ def stoppedOnSend (out : List (Nat × Event)) (k : Nat) : Bool :=
   | none => true
   | some (kl, _) => decide (kl < k)
 
-def pump (x : List Byte) (r : R Val) : Run :=
+def pump (isStream : Bool) (x : List Byte) (r : R Val) : Run :=
   let len := x.length
   let (out, pos, res) : (List (Nat × Event) × Nat × Except Err Val) := match r with
     | .ok (v, s) => (s.out, s.pos, .ok v)
     | .error (e, s) => (s.out, s.pos, .error e)
-  let (evs, cc, stopped) := pumpEvents len out [] none
+  let (evs, cc, stopped) := pumpEvents isStream len out [] none
   if stopped then ⟨evs, .silent, cc⟩ else
   match res with
   | .ok v =>
@@ -70,16 +71,11 @@ def pump (x : List Byte) (r : R Val) : Run :=
   | .error .depleted => ⟨evs, .depleted, cc⟩
   | .error (.crash cls site) => ⟨evs, .crash cls site, cc⟩
   | .error e =>
-    if stoppedOnSend out pos then ⟨evs, .raised e (x.drop pos), cc⟩
-    else if pos < len then ⟨evs, .raised e (x.drop pos), cc⟩
-    else
-      -- raised on an event pull with the source exhausted: the pump prepends its stale look-ahead
-      -- variable, i.e. the last byte it pulled (already consumed by the processor)
-      match x.getLast? with
-      | some b => ⟨evs, .raised e [b], cc⟩
-      | none => ⟨evs, .crash "TypeError" "bytes((None,))", cc⟩
+    -- raised on a byte send: the iterator holds the rest; raised on an event pull: the look-ahead byte
+    -- (if there is one) has not been consumed and is put back in front of the rest
+    ⟨evs, .raised e (x.drop pos), cc⟩
 
 /-- `Binary.marshal(tpm_type=…, buffer=x, command_code=…, parameter_encryption=…, abort_on_error=…)`
 run to completion -/
 def marshalRun (abort : Bool) (tb : MsgTables) (top : Top) (x : List Byte) : Run :=
-  pump x (runWalker abort tb top x)
+  pump (match top with | .stream => true | _ => false) x (runWalker abort tb top x)
